@@ -1,4 +1,5 @@
 import CwMt.Proofs.EngineB
+import CwMt.Proofs.EngineTx
 /-
   C13 — Malformed contract responses are rejected before any effect is kept.
 -/
@@ -62,5 +63,31 @@ example : responseOk { attrs := [⟨" _key", "v"⟩] } = false := by
   simp [responseOk, attrOk, rtrim, trimChars, isWhite]
 example : responseOk { events := [{ ty := " a ", attrs := [] }] } = false := by decide
 example : responseOk { attrs := [⟨" ", "v"⟩] } = false := by decide
+
+/-! ### "before any effect is kept", for the engine with in-place writes (`CwMt/Model/EngineTx.lean`)
+
+In the Rust code `with_storage` commits the contract's writes into the enclosing storage as soon as the entry
+point returns `Ok`; `verify_response` runs after that. So when the error is raised the writes of the rejected
+call ARE in the storage it was handed — what makes the property true is the cache around it. -/
+
+/-- the rejected call returns `err` with its writes in place -/
+theorem imperative_malformed_writes_then_error (cfg : Config E) (d : Dirt E) (blk : Block) (ch : Chain E) (addr : Addr)
+    (en : Entry) (tr : Trace) (cd : ContractData) (code : Code E) (resp : Response) (own' : Store Val) (note : String)
+    (hc : ch.contracts.get? addr = some cd) (hcode : contractCode? cfg cd.codeId = some code)
+    (hrun : code.run en (contractEnv blk addr) ch ((ch.cstore.get? addr).getD []) = (.ok (resp, own'), note))
+    (hbad : responseOk resp = false) :
+    callContractI cfg d blk ch addr en tr =
+      (.err, { ch with cstore := ch.cstore.set addr own' }, tr ++ [⟨addr, en, contractEnv blk addr, note⟩]) :=
+  EngineTx.malformed_writes_then_error cfg d blk ch addr en tr cd code resp own' note hc hcode hrun hbad
+
+/-- … and the nearest enclosing `transactional` (entry point or sub-message) drops them -/
+theorem imperative_malformed_dropped_by_cache (cfg : Config E) (d : Dirt E) (blk : Block) (ch : Chain E) (addr : Addr)
+    (en : Entry) (tr : Trace) (cd : ContractData) (code : Code E) (resp : Response) (own' : Store Val) (note : String)
+    (hc : ch.contracts.get? addr = some cd) (hcode : contractCode? cfg cd.codeId = some code)
+    (hrun : code.run en (contractEnv blk addr) ch ((ch.cstore.get? addr).getD []) = (.ok (resp, own'), note))
+    (hbad : responseOk resp = false) :
+    transactionalI ch (callContractI cfg d blk ch addr en tr) =
+      (.err, ch, tr ++ [⟨addr, en, contractEnv blk addr, note⟩]) :=
+  EngineTx.malformed_dropped_by_cache cfg d blk ch addr en tr cd code resp own' note hc hcode hrun hbad
 
 end CwMt.C13
